@@ -1,7 +1,7 @@
 """C06 — angle and axis-angle constructors give proper right-handed rotations."""
 import algebra as A
 from algebra import El, ZERO, ONE
-from core import (Harness, sv, sm, sq, ss, Run, Conv, forms4, run_specs, report_dropped, ret_leaves, cmp_struct, single_ret, parse_guard, flat)
+from core import (Harness, sv, sm, sq, ss, Run, Conv, forms4, run_specs, report_dropped, ret_leaves, cmp_struct, single_ret, parse_guard, flat, eq_tests)
 import facts
 import specs
 from specs import HALF, DEG2RAD
@@ -124,12 +124,8 @@ def check_basis_invert(run, S, name, spec, kw):
         for li, (guards, leaf) in enumerate(ret_leaves(r['out'])):
             infeasible = False
             for kind, tid, want in guards:
-                if kind != 'ite':
-                    continue
-                g_ = parse_guard(S, cv, tid)
-                if g_['kind'] == 'eq':
-                    d = (g_['a'] - g_['b']).norm()
-                    truth = want != g_['neg']
+                for d, truth, text in eq_tests(S, cv, kind, tid, want):
+                    d = d.norm()
                     if d.zero() and not truth:
                         infeasible = True
                     if d.is_const() and not d.zero() and truth:
